@@ -12,6 +12,9 @@ import warnings
 from .. import gen, refmodel
 from ..util import rot_left, rc
 
+JUNCTION_SITE_P = 0.08     # share of generated assemblies whose product carries a junction-spanning site
+
+
 DEFAULT_OPTS = {
     "features": True, "refs": False, "max_chain": 4, "rotate": True, "permute": True,
     "tmax": 40, "bmax": 40, "pmax": 40,
@@ -159,9 +162,24 @@ def materialise_assembly(case):
             j = rng.randint(1, nm - 1)
             if rc(ov[j]) != ov[j] and rc(ov[j]) not in ov[:nm]:
                 ov[nm] = rc(ov[j])
+        # own stream: now and then the product gets a recognition site that none of the inputs has - it comes into being
+        # across one of the two vector junctions (end of one retained fragment + fusion site + start of the next)
+        pins = {}
+        rj = gen.rng_for(case["seed"], "assembly-junction-site", case["enzyme"], case["i"], attempt)
+        if len(site) >= k + 2 and rj.random() < JUNCTION_SITE_P:
+            w = site if rj.random() < 0.5 else rc(site)
+            i = rj.randint(1, len(site) - k - 1)
+            left, mid, right = w[:i], w[i:i + k], w[i + k:]
+            j = rj.choice([0, nm])
+            others = [o for jj, o in enumerate(ov) if jj != j]
+            if mid not in others and rc(mid) not in others and (mid != rc(mid)) and not (j == nm and mid == rc(ov[0])) and not (j == 0 and mid == rc(ov[nm])):
+                ov[j] = mid
+                pins = {"b_suffix": left, "t_first": right} if j == 0 else {"t_last": left, "b_prefix": right}
         try:
-            v = gen.build_vector(rng, geom, o_start=ov[nm], o_end=ov[0], plen=rng.randint(0, opts["pmax"]), blen=rng.randint(2, opts["bmax"]))
-            mods = [gen.build_module(rng, geom, ov[i], ov[i + 1], rng.randint(2, opts["tmax"]), rng.randint(0, opts["bmax"])) for i in range(nm)]
+            v = gen.build_vector(rng, geom, o_start=ov[nm], o_end=ov[0], plen=rng.randint(0, opts["pmax"]), blen=rng.randint(2, opts["bmax"]),
+                                 b_prefix=pins.get("b_prefix", ""), b_suffix=pins.get("b_suffix", ""))
+            mods = [gen.build_module(rng, geom, ov[i], ov[i + 1], rng.randint(2, opts["tmax"]), rng.randint(0, opts["bmax"]),
+                                     t_prefix=pins.get("t_first", "") if i == 0 else "", t_suffix=pins.get("t_last", "") if i == nm - 1 else "") for i in range(nm)]
             break
         except RuntimeError:
             continue
